@@ -36,6 +36,30 @@ def run_call(fn, payload, ctx):
     with warnings.catch_warnings():
         warnings.simplefilter("ignore")
         try:
+            if fn == "prelude":
+                # an "earlier workload" on the abstract base classes: every class that has subclasses is asked for its
+                # class-level mappings and instantiated, before any concrete class is used
+                import ofxtools.models as M
+                todo, seen_ = [Aggregate], set()
+                while todo:
+                    c = todo.pop()
+                    if c in seen_:
+                        continue
+                    seen_.add(c)
+                    subs = c.__subclasses__()
+                    todo += subs
+                    if subs:
+                        for nm in ("spec", "elements", "subaggregates", "listaggregates", "listelements", "unsupported",
+                                   "spec_no_listaggregates", "_superdict"):
+                            try:
+                                getattr(c, nm)
+                            except Exception:
+                                pass
+                        try:
+                            c().to_etree()
+                        except Exception:
+                            pass
+                return {"fn": fn, "i": dg(payload), "o": "done", "iafter": dg(payload), "ctx": ctx}
             if fn == "parse":
                 data = bytes(payload)
                 i = dg(data)
